@@ -1077,3 +1077,12 @@ def seconds(x):
     if isinstance(x, SymInt):
         return SymDelta(x.t)
     return datetime.timedelta(seconds=x)
+
+
+def concrete(x):
+    """python value of a (possibly symbolic) enum / int (forks)"""
+    if isinstance(x, SymEnum):
+        return x.concrete()
+    if isinstance(x, SymInt):
+        return concretize_int(x)
+    return x
